@@ -1,4 +1,5 @@
 import Aiorpcx.C14.Lemmas
+import Aiorpcx.C13.Table
 import Aiorpcx.Facts.C14
 /-!
 # C14 — property theorems for the session cost accounting
@@ -39,7 +40,9 @@ theorem recalc_disabled (c : Cfg) (s : St) (h : c.hard - c.soft ≤ 0) :
 
 /-! ## charging -/
 
-/-- **Charges are exact**: every chunk received and every message sent is charged `n·bw`, every
+/-- **Charges are exact** (definitional for the model: the content is that the *code* charges
+what `step` charges, which is `facts_charge_table` — one event on a live session of either class
+costs exactly `charge`): every chunk received and every message sent is charged `n·bw`, every
 failed request `base + its own cost`, through the same `bump_cost`; and `bump_cost(δ)` moves the
 cost to `max 0 (cost + δ)` — further decayed only if that drift triggers a re-evaluation. -/
 theorem charges_exact (c : Cfg) (s : St) :
@@ -212,21 +215,60 @@ theorem delay_proportional (c : Cfg) (start : Rat) (ops : List Op) (ht : 0 ≤ c
     rw [Rat.one_mul] at this
     exact this
 
+/-- the history contains no evaluation: no explicit `recalc_concurrency()`, and no charge whose
+drift passes the threshold (the clock and `extra_cost()` may change freely) -/
+def noEval (c : Cfg) (s : St) : List Op → Prop
+  | [] => True
+  | .recalc :: _ => False
+  | op :: ops =>
+      (match charge c op with
+       | some δ => ¬ drifts c s δ
+       | none => True) ∧ noEval c (step c s op) ops
+
+theorem step_noEval_frame (c : Cfg) (s : St) (op : Op) (ops : List Op) (h : noEval c s (op :: ops)) :
+    (step c s op).target = s.target ∧ (step c s op).fraction = s.fraction ∧ noEval c (step c s op) ops := by
+  have hb : ∀ δ, ¬ drifts c s δ → (bump c s δ).target = s.target ∧ (bump c s δ).fraction = s.fraction := by
+    intro δ hd
+    unfold drifts at hd
+    rw [((charges_exact c s).2.2.2.2 δ).1 hd]; exact ⟨rfl, rfl⟩
+  cases op with
+  | recalc => exact absurd h (by simp [noEval])
+  | bump δ => exact ⟨(hb δ h.1).1, (hb δ h.1).2, h.2⟩
+  | dataReceived n => exact ⟨(hb _ h.1).1, (hb _ h.1).2, h.2⟩
+  | sent n => exact ⟨(hb _ h.1).1, (hb _ h.1).2, h.2⟩
+  | error e => exact ⟨(hb _ h.1).1, (hb _ h.1).2, h.2⟩
+  | advance dt => exact ⟨rfl, rfl, h.2⟩
+  | setExtra e => exact ⟨rfl, rfl, h.2⟩
+
+theorem run_noEval_frame (c : Cfg) (ops : List Op) : ∀ (s : St), noEval c s ops →
+    (run c s ops).target = s.target ∧ (run c s ops).fraction = s.fraction := by
+  induction ops with
+  | nil => intro s _; exact ⟨rfl, rfl⟩
+  | cons op ops ih =>
+    intro s h
+    obtain ⟨h1, h2, h3⟩ := step_noEval_frame c s op ops h
+    have := ih _ h3
+    exact ⟨by rw [run, this.1, h1], by rw [run, this.2, h2]⟩
+
 /-- **Refused past the hard limit**: an evaluation that finds `cost + extra ≥ hard` sets the limit
-to 0, so the next request that obtains the permit takes the refusal branch (hook, −101, close:
-`facts_refusal_branch`), and charging operations that do not re-evaluate leave it so. -/
+to 0, and it stays 0 over **every history without a further evaluation** (any traffic, errors,
+bumps whose drift stays within the threshold, clock movements, `extra_cost` changes): every
+request that obtains the permit from then on takes the refusal branch — hook, −101, close:
+`facts_admit_table`; that it does obtain the permit and that no queued request is left behind is
+`disconnect_reachable` (Compose.lean). -/
 theorem refused_past_hard (c : Cfg) (s : St) (hr : 0 < c.hard - c.soft) (hi : 0 ≤ c.initial)
     (h : c.hard ≤ (recalc c s).cost + s.extra) :
     (recalc c s).target = 0 ∧ admission c (recalc c s) = .refused ∧
-    (∀ δ, ¬ absQ (max 0 ((recalc c s).cost + δ) - (recalc c s).last) > c.threshold →
-       admission c (bump c (recalc c s) δ) = .refused) := by
+    (∀ ops, noEval c (recalc c s) ops →
+       (run c (recalc c s) ops).target = 0 ∧ admission c (run c (recalc c s) ops) = .refused) := by
   have ht : (recalc c s).target = 0 := by
     rw [(target_formula c s hr).2]
     exact targetOfFraction_ge_one c hi (fractionOf_above c hr h)
   refine ⟨ht, by unfold admission; simp [ht], ?_⟩
-  intro δ hno
-  rw [((charges_exact c (recalc c s)).2.2.2.2 δ).1 hno]
-  unfold admission; simp [ht]
+  intro ops hno
+  have := (run_noEval_frame c ops _ hno).1
+  rw [ht] at this
+  exact ⟨this, by unfold admission; simp [this]⟩
 
 /-- **`hard ≤ soft` disables limiting**: for every history the limit stays the initial one, the
 fraction stays 0, and every admitted request runs without delay. -/
@@ -264,40 +306,114 @@ enabled on servers (`hard > soft ≥ 0`), threshold and rates are non-negative, 
 theorem facts_config :
     0 < shipped.hard - shipped.soft ∧ 0 ≤ shipped.soft ∧ 0 ≤ shipped.threshold ∧
     1 ≤ shipped.initial ∧ 0 < shipped.sleepMax ∧ 0 ≤ shipped.bw ∧ 0 ≤ shipped.decay ∧
-    0 ≤ shipped.base ∧ shipped.client.hard - shipped.client.soft ≤ 0 := by
+    0 ≤ shipped.base ∧ shipped.client.hard - shipped.client.soft ≤ 0 ∧
+    Facts.C14.clientHardLimit = shipped.client.hard := by
   decide +kernel
 
-/-- `bump_cost` and `recalc_concurrency` compute what the model computes (per-path symbolic
-normal forms of the methods; `a0` is the argument) -/
-theorem facts_bump :
-    Facts.C14.bumpPaths =
-      ["when abs(max(0, a0 + cost) - _cost_last) Gt 100: cost := max(0, a0 + cost); do recalc_concurrency()",
-      "when abs(max(0, a0 + cost) - _cost_last) LtE 100: cost := max(0, a0 + cost)"] := rfl
-theorem facts_recalc :
-    Facts.C14.recalcPaths =
-      ["when cost_hard_limit - cost_soft_limit Gt 0: _cost_fraction := max(0.0, (max(0, cost - cost_decay_per_sec * (time.time() - _cost_time)) + extra_cost() - cost_soft_limit) / (cost_hard_limit - cost_soft_limit)); _cost_last := max(0, cost - cost_decay_per_sec * (time.time() - _cost_time)); _cost_time := time.time(); cost := max(0, cost - cost_decay_per_sec * (time.time() - _cost_time)); do _incoming_concurrency.set_target(max(0, ceil((1.0 - max(0.0, (max(0, cost - cost_decay_per_sec * (time.time() - _cost_time)) + extra_cost() - cost_soft_limit) / (cost_hard_limit - cost_soft_limit))) * initial_concurrent)))",
-      "when cost_hard_limit - cost_soft_limit LtE 0: _cost_last := max(0, cost - cost_decay_per_sec * (time.time() - _cost_time)); _cost_time := time.time(); cost := max(0, cost - cost_decay_per_sec * (time.time() - _cost_time)); return "] := rfl
-/-- the charging sites pass exactly the model's charges to `bump_cost`; the client override -/
-theorem facts_charges :
-    Facts.C14.dataReceivedPaths = ["when always: recv_size := len(a0) + recv_size; do bump_cost(len(a0) * bw_cost_per_byte)"] ∧
-    Facts.C14.bumpErrorsPaths = ["when always: errors := 1 + errors; do bump_cost(getattr(a0, 'cost', 0.0) + error_base_cost)"] ∧
-    Facts.C14.chargeSendMessage = ["len(message) * bw_cost_per_byte"] ∧
-    Facts.C14.clientOverride = "if SessionKind.CLIENT Eq session_kind: cost_hard_limit = 0" ∧
-    Facts.C14.extraCostDefault = ["return 0.0"] ∧
-    Facts.C14.parseErrorCost = "e.cost = error_base_cost * 10" :=
-  ⟨rfl, rfl, rfl, rfl, rfl, rfl⟩
-/-- the refusal branch: hook, reply −101, disconnect; the sleep before the handler -/
-theorem facts_refusal_branch :
-    Facts.C14.refusalBranchRequest =
-      ["call on_disconnect_due_to_excessive_session_cost",
-       "result RPCError(JSONRPC.EXCESSIVE_RESOURCE_USAGE, 'excessive resource usage')",
-       "set flag guarding close()"] ∧
-    Facts.C14.refusalBranchMessage =
-      ["call on_disconnect_due_to_excessive_session_cost", "call close"] ∧
-    Facts.C14.excessiveResourceUsage = -101 ∧
-    Facts.C14.sleepGuard = ["if _cost_fraction: sleep(_cost_fraction * cost_sleep)",
-                            "if _cost_fraction: sleep(_cost_fraction * cost_sleep)"] :=
-  ⟨rfl, rfl, rfl, rfl⟩
+/-! ### behavioural tables (tools/facts/c14.py RUNS the current tree; nothing below depends on
+how the methods are written) -/
+
+open Table in
+/-- read a configuration: bw soft hard decay sleep base (numerator, denominator each), init,
+threshold (numerator, denominator) -/
+def cfgOf : List Int → Option (Cfg × List Int)
+  | bwn :: bwd :: sn :: sd :: hn :: hd :: dn :: dd :: sln :: sld :: bn :: bd :: ini :: tn :: td :: rest =>
+      some (⟨ratOf bwn bwd, ratOf sn sd, ratOf hn hd, ratOf dn dd, ratOf sln sld, ratOf bn bd,
+             ratOf tn td, ini⟩, rest)
+  | _ => none
+
+open Table in
+/-- read `n` operations (kind, numerator, denominator): 0 bump_cost, 1 recalc_concurrency,
+2 data_received(n bytes), 3 clock advance, 4 extra_cost := -/
+def takeAcctOps : Nat → List Int → Option (List Op × List Int)
+  | 0, l => some ([], l)
+  | n + 1, k :: a :: b :: l =>
+      let op : Op :=
+        if k = 0 then .bump (ratOf a b) else if k = 1 then .recalc
+        else if k = 2 then .dataReceived a.toNat else if k = 3 then .advance (ratOf a b)
+        else .setExtra (ratOf a b)
+      (takeAcctOps n l).map (fun r => (op :: r.1, r.2))
+  | _ + 1, _ => none
+
+open Table in
+/-- the model reproduces the observed `cost` and `max_concurrent` after every event -/
+def checkAcct (c : Cfg) : St → List Op → List Int → Bool
+  | _, [], [] => true
+  | s, op :: ops, cn :: cd :: t :: obs =>
+      let s' := step c s op
+      decide (s'.cost = ratOf cn cd) && decide (s'.target = t) && checkAcct c s' ops obs
+  | _, _, _ => false
+
+def acctRowOk (row : List Int) : Bool :=
+  match cfgOf row with
+  | some (c0, cl :: k :: rest) =>
+      let c := if cl = 1 then c0.client else c0
+      match takeAcctOps k.toNat rest with
+      | some (ops, obs) => checkAcct c (init c 0) ops obs
+      | none => false
+  | _ => false
+
+/-- **`bump_cost`, `recalc_concurrency`, `data_received`, the client override: the model computes
+what the code computes** — on every history the facts extractor ran on a bare `SessionBase`
+(every pair of events over a 10-letter alphabet around soft / hard / the drift threshold, and
+longer seeded histories on server, client and hard ≤ soft configurations), exactly (all inputs
+dyadic, soft ranges powers of two: every float operation of the code is exact). -/
+theorem facts_acct_table :
+    Facts.C14.acctTable.all acctRowOk = true ∧ 100 ≤ Facts.C14.acctTable.length := by
+  decide +kernel
+
+theorem facts_drift : Facts.C14.driftStrict = true ∧ Facts.C14.driftThreshold = shipped.threshold :=
+  ⟨by decide, rfl⟩
+
+open Table in
+/-- class (0 RPCSession / 1 MessageSession), kind (0 good request or message, 1 failing request,
+2 crashing handler, 3 failing notification, 4 garbage line, 5 invalid request object, 7 bad
+checksum), bw, base, bytes in, bytes out (unframed), own cost, cost delta, errors delta -/
+def chargeRowOk (row : List Int) : Bool :=
+  match row with
+  | [_cls, kind, bwn, bwd, bn, bd, nin, nout, on, od, dn, dd, derr] =>
+      let c : Cfg := ⟨ratOf bwn bwd, 0, 0, 0, 0, ratOf bn bd, 0, 0⟩
+      let isErr := decide (kind ≠ 0)
+      let want := (charge c (.dataReceived nin.toNat)).getD 0 + (charge c (.sent nout.toNat)).getD 0 +
+        (if isErr then (charge c (.error (ratOf on od))).getD 0 else 0)
+      decide (ratOf dn dd = want) && decide (derr = if isErr then 1 else 0)
+  | _ => false
+
+/-- **Every message received or sent is charged at the per-byte rate, every failed request or
+notification and every protocol violation the base error cost plus its own cost, and counted as
+one error** — observed on live sessions of both classes (request + reply, failing request,
+crashing handler, failing notification, garbage line, invalid request, bad checksum). -/
+theorem facts_charge_table :
+    Facts.C14.chargeTable.all chargeRowOk = true ∧ 20 ≤ Facts.C14.chargeTable.length := by
+  decide +kernel
+
+open Table in
+/-- class, cfg, fraction of the soft range, refused?, started?, delay, hook calls, closing?,
+reply code -/
+def admitRowOk (row : List Int) : Bool :=
+  match row with
+  | cls :: rest =>
+    match cfgOf rest with
+    | some (c, [fn, fd, refused, started, dn, dd, hooks, closing, rcode]) =>
+        let s := run c (init c 0) [.bump (c.soft + ratOf fn fd * (c.hard - c.soft)), .recalc]
+        match admission c s with
+        | .refused =>
+            decide (refused = 1) && decide (started = 0) && decide (hooks = 1) && decide (closing = 1) &&
+              decide (cls = 0 → rcode = Facts.C14.excessiveResourceUsage)
+        | .run d =>
+            decide (refused = 0) && decide (started = 1) && decide (ratOf dn dd = d) &&
+              decide (hooks = 0) && decide (closing = 0)
+    | _ => false
+  | _ => false
+
+/-- **Admission decision of both session classes** (`_throttled_request`, `_throttled_message`):
+a request fed after an evaluation at fraction f of the soft range starts after exactly
+`f · cost_sleep` virtual seconds when f < 1, and is refused when f ≥ 1 — handler not run,
+disconnect hook called once, session closing, reply −101 on an RPC session. -/
+theorem facts_admit_table :
+    Facts.C14.admitTable.all admitRowOk = true ∧ 20 ≤ Facts.C14.admitTable.length ∧
+    Facts.C14.excessiveResourceUsage = -101 := by
+  decide +kernel
 
 /-! ## non-vacuity -/
 
@@ -314,6 +430,11 @@ example : admission demo (after demo 0 [.error 150, .error 150, .error 1]) = .re
 example : (after demo 0 [.error 150, .error 150, .advance 400, .recalc]).cost = 300 := by
   decide +kernel
 example : (after demo 0 [.bump 50, .bump (-80)]).cost = 0 := by decide +kernel
+-- `noEval` histories exist after a refusal-grade evaluation (traffic, a small bump, the clock)
+example : noEval demo (recalc demo (after demo 0 [.bump 700]))
+    [.dataReceived 1024, .bump 50, .advance 10, .setExtra 5, .error (-80)] := by
+  simp only [noEval, charge, drifts, step]
+  decide +kernel
 -- hypotheses of `delay_proportional` / `refused_past_hard` are satisfiable
 example : 0 < demo.hard - demo.soft ∧ 0 < (after demo 0 [.error 150, .error 150]).target := by
   decide +kernel
